@@ -11,8 +11,8 @@ MANIFEST = {
     "text": "Theorems (all key lengths, all batch sequences, any hash): the hash of the incrementally maintained trie (insert with "
             "split, delete with leaf lifting, batches with first-occurrence-wins de-duplication, empty value = delete) equals the "
             "LIP-0039 root of the resulting map; two histories whose final maps agree give the same root; empty map gives the empty "
-            "hash. Proofs: single-query completeness and soundness of the path recomputation under an injective hash (see docs/C10.md "
-            "for what is partial). The executable transcription of Verify/CalculateRoot and of Prove's merge is tied to the Go code by "
+            "hash. Proofs: the CalculateRoot model on one query is the path recomputation, and that recomputation is sound w.r.t. the map "
+            "under an injective hash (single query; multi-query soundness and completeness are partial, see docs/C10.md). The executable transcription of Verify/CalculateRoot and of Prove's merge is tied to the Go code by "
             "running both on every case: roots after every batch (random / clustered / subtree-crossing keys, key lengths 1,2,4,32 bytes, "
             "re-opened tries), Go proofs must equal model proofs and verify in both, and every tampered proof gets the same verdict "
             "in both and, if accepted, must still state only true claims.",
@@ -120,7 +120,7 @@ def run(ck):
     if not binp:
         return
     if ck.tier == "quick":
-        args = ["-nroot", "40", "-nproof", "45", "-nev", "15", "-maxobs", "26"]
+        args = ["-nroot", "32", "-nproof", "34", "-nev", "12", "-maxobs", "24"]
     else:
         args = ["-nroot", "800", "-nproof", "800", "-nev", "200", "-maxobs", "40"]
     recs = corpus(ck, binp)
@@ -140,7 +140,7 @@ def run(ck):
                       "batch, empty batch) over random, clustered (shared prefix up to the last 12 bits) and subtree-crossing keys of "
                       "1, 2, 4 and 32 bytes; trie re-created from its root (NewTrie(root)) before random batches; each final map also "
                       "inserted as one shuffled batch into a fresh trie; CalculateEventRoot on random events; proofs for 1..5 query keys "
-                      "(present, absent neighbours, absent random, duplicates), each with up to 26 (quick) / 40 (thorough) single-field tamperings (root, value, "
+                      "(present, absent neighbours, absent random, duplicates), each with up to 24 (quick) / 40 (thorough) single-field tamperings (root, value, "
                       "query key bits, bitmap, requested key, each sibling hash changed/removed/added, query dropped, forged extra and "
                       "forged deeper queries). Evaluations = roots compared + verification observations; distinct = by full input.")
     ck.extra["traces_validated_against_impl"] = len(recs)
